@@ -126,6 +126,7 @@ func cmdCheck(args []string) int {
 	nviol := 0
 	nobl, ndis := 0, 0
 	bySolver := map[string]int{}
+	ncached := 0
 	solverSecs := 0.0
 	var samples []interface{}
 	var knownHit []string
@@ -171,6 +172,9 @@ func cmdCheck(args []string) int {
 	for _, v := range verdicts {
 		o := v.Obl
 		bySolver[v.Solver]++
+		if v.Cached {
+			ncached++
+		}
 		solverSecs += v.Time
 		rows = append(rows, vrow{o.Name, v.Time})
 		if o.Kind == "cover" {
@@ -264,6 +268,7 @@ func cmdCheck(args []string) int {
 			"functions_under_contract": fns,
 			"ssa_instructions":         ninstr,
 			"discharged_by":            bySolver,
+			"verdict_cache":            fmt.Sprintf("%d of the discharged obligations reused an unsat verdict remembered from an earlier run under the SHA-256 of the identical generated SMT script (entries \"cache:<solver>\"); GOVC_CACHE=off re-solves everything", ncached),
 			"solver_seconds_total":     round2(solverSecs),
 			"load_seconds":             round2(loadSecs),
 			"slowest":                  slowest,
